@@ -498,7 +498,36 @@ class BitfieldEngine(object):
         t, w = self.t, self.w
         v = self.pick_view()
         present = [f for f in self.fields if self.enabled(f, v.fv)]
-        which = t.draw(4)
+        which = t.draw(5)
+        if which == 4:
+            ident = IDENTS[t.draw(len(IDENTS))]
+            f = self.resolve(ident, v.fv)
+            w.trace.ev("op", "get_location_and_length")
+            w.ops.append("%s.get_location_and_length(%r)" % (v.name, ident))
+            st, ll = self.call(v.obj.get_location_and_length, ident)
+            w.ops[-1] += " -> %s" % (st if st != "ok" else (ll,))
+            if f is None:
+                if st != "Unavailable":
+                    w.violate("LAY", "location of a field that is not "
+                              "available in this view read as %s" % st,
+                              kind="location-unavailable")
+                return
+            if f.astart is None:
+                if st == "ok" and not (f.dlen is not None and
+                                       f.dstart is not None):
+                    # rig may already know more than the model only if both
+                    # were declared
+                    w.violate("LAY", "field %r has no assigned position but "
+                              "get_location_and_length returned %r"
+                              % (ident, ll), kind="location-unassigned")
+                return
+            if st != "ok" or tuple(ll) != (f.astart, f.alen):
+                w.violate("LAY", "%s.get_location_and_length(%r) = %s; the "
+                          "field was laid out at (%d, %d)"
+                          % (v.name, ident, ll if st == "ok" else st,
+                             f.astart, f.alen), kind="location")
+            w.ops_completed += 1
+            return
         if which == 0:
             # mask, maybe tag-restricted
             tag = TAGS[t.draw(3)] if t.draw(2) else None
